@@ -59,6 +59,21 @@ many = [("m", msg(b"35=0\x0134=%d\x01" % i)) for i in range(400)]
 tot = sum(len(b) for _, b in many)
 case("many-small", parts(*many), ["cuts 4096x%d n" % (tot // 4096 + 1), "cuts 100x%d y" % (tot // 100 + 1), "cuts 31x%d n" % (tot // 31 + 1), "loop 4097x%d n" % (tot // 4097 + 1)])
 
+# frames that end exactly at the end of bigBuffer (window empty with zero capacity => shift of an empty window)
+for target in (4096, 8192):
+    ms = [msg(b"35=0\x0158=" + b"x" * 100 + SOH) for _ in range(target // 200)]
+    used = sum(len(m) for m in ms)
+    rest = target - used
+    # last message of exactly `rest` bytes
+    bl = rest - len(msg(b"A" + SOH)) + 2
+    for _ in range(3):
+        last = msg(b"A" * (bl - 1) + SOH)
+        bl += rest - len(last)
+    last = msg(b"A" * (bl - 1) + SOH)
+    assert used + len(last) == target, (used, len(last), target)
+    toks = [("m", m) for m in ms] + [("m", last), ("m", hb), ("j", b"tail")]
+    case("frames-fill-%d-exactly" % target, parts(*toks), ["cuts %dx3 n" % target, "cuts %d,1x50 y" % target, "cuts 4096x4 n", "cuts 1x%d n" % (target + 60), "loop %dx3 y" % target])
+
 with open(__file__.rsplit("/", 1)[0] + "/frame.ops", "w") as f:
     for i, (label, first, ops) in enumerate(cases, 1):
         f.write("# case %d %s\n%s\n" % (i, label, first))
